@@ -14,8 +14,8 @@ LEVEL_TEXT = {
 }
 LEVEL_TEXT.update({
  "C01": ("model_checking", "Bounded model checking of generator output + real EoWriter/EoReader per corpus class: structure value-forked, all leaf values symbolic over their full range; z3 decides field-by-field equality after serialize->deserialize, exact consumption and byte_size. The programs quantifier is a fixed, enumerated spec corpus (stated as a bound).", "§7 C01, §5"),
- "C02": ("translation_validation", "Per corpus program the generator's output is validated against an independent reading of the same XML (O-xml): z3 decides byte-for-byte equality of the generated serializer's output and the reference wire image for all objects within the value bounds, on the core tree and on five twin trees that spell one boolean default explicitly.", "§7 C02, §5, §6"),
- "C03": ("model_checking", "Per corpus class and input length n all 256^n byte strings are one symbolic input; the generated deserializer (real EoReader) is compared field by field with O-xml's reading rules over the independent O-reader model; only the predicted ValueError may escape.", "§7 C03"),
+ "C02": ("translation_validation", "Per corpus program the generator's output is validated against an independent reading of the same XML (O-xml): z3 decides byte-for-byte equality of the generated serializer's output and the reference wire image for all objects within the value bounds, on the core tree, on five twin trees that spell one boolean default explicitly, and on a mechanically generated corpus of all ordered pairs of 36 instruction templates in 5 contexts (all 5,226 in the thorough tier, a VERIF_SEED-chosen sample in the quick tier).", "§7 C02, §5, §6, §13.4"),
+ "C03": ("model_checking", "Per corpus class and input length n all 256^n byte strings are one symbolic input; the generated deserializer (real EoReader) is compared field by field with O-xml's reading rules over the independent O-reader model; only the predicted ValueError may escape. Programs: core corpus plus the generated pair corpus (§13.4).", "§7 C03, §13.4"),
  "C15": ("fault_enumeration", "Bounded model checking with injected faults: every call index of a failing writer/reader is enumerated by value-forking, objects range over valid and single-violation values, byte strings are symbolic, entry mode symbolic; z3 decides mode-after == mode-before on every returning and raising path.", "§7 C15"),
  "C16": ("model_checking", "Every single declaration-violating change (site value-forked over all fields, depths, elements and cases; over-limit integers symbolic and unbounded) applied to a symbolic valid object; z3 decides that the generated serializer cannot return normally.", "§7 C16"),
  "C19": ("model_checking", "Symbolic field values: double serialization identical for constructed and deserialized instances, unaffected by caller-side mutation of constructor arguments (heap aliasing modelled); AttributeError on assignment decided by executing setattr in the interpreter's descriptor semantics on every explored path and confirmed natively.", "§7 C19"),
